@@ -104,9 +104,18 @@ fn main() {
                 let mut cfg = xplor::default_cfg(&mut rng, &scalars);
                 let init_mode = i % 2 == 0;
                 cfg.unreachable_blocks = rng.chance(1, 3);
-                let mut function = fv::gen::function(&mut rng, &cfg, 0x1000);
+                let mut function = fv::gen::any_function(&mut rng, &cfg, 0x1000);
                 if init_mode {
                     initialise(&mut function, &scalars, &mut rng);
+                } else if rng.chance(1, 3) {
+                    // a path on which nothing has been assigned yet when it reaches a join: the entry
+                    // block assigns nothing (its instructions become nops)
+                    let entry = function.control_flow_graph().entry().unwrap();
+                    for i in function.block_mut(entry).unwrap().instructions_mut() {
+                        if i.is_assign() || i.is_load() {
+                            *i.operation_mut() = il::Operation::nop();
+                        }
+                    }
                 }
                 let x = XProg {
                     function, scalars: scalars.clone(), big: rng.bool(), mem_base: 0x2000,
